@@ -784,7 +784,8 @@ def _process_set(job):
                     if "/support/" in rel and not job.get("compile_support"):
                         continue  # identical in every set (depends on the configuration only): compiled once, by the design probe
                     macros = None
-                    for tid, argv in tools:
+                    mytools = tools[::2] if job.get("light") and rel.startswith(job["light"]) else tools
+                    for tid, argv in mytools:
                         if tid.endswith("-use"):
                             # C constants are object-like macros: their literals are only diagnosed where they are expanded
                             if macros is None:
@@ -1078,7 +1079,7 @@ def select_name_cases(ctx, cases):
         by.setdefault((c["pos"], c["cls"], c["w"]), []).append(c)
     sel = {}
     for n, (k, lst) in enumerate(sorted(by.items())):
-        if k[2] > 2:
+        if k[2] > 1:
             continue
         c = lst[n % len(lst)]
         sel[(c["pos"], c["cls"], c["w"], c["kind"])] = c
@@ -1086,7 +1087,7 @@ def select_name_cases(ctx, cases):
     for c in cases:
         by2.setdefault((c["kind"], c["pos"]), []).append(c)
     for n, (k, lst) in enumerate(sorted(by2.items())):
-        lst = [c for c in lst if c["w"] == 1 + n % 2] or lst
+        lst = [c for c in lst if c["w"] == 2 + n % 2] or lst
         c = lst[(n * 5) % len(lst)]
         sel[(c["pos"], c["cls"], c["w"], c["kind"])] = c
     return [sel[k] for k in sorted(sel)]
@@ -1103,8 +1104,10 @@ def word_for(case):
     return lst[idx % n]
 
 
-def mkjob(ctx, sset, units, tools, compile_=True, keep=False):
-    return {"set": sset, "dir": str(ctx.scratch / "sets" / sset["id"]), "units": units, "tools": tools, "compile": compile_, "keep": keep}
+def mkjob(ctx, sset, units, tools, compile_=True, keep=False, light=None):
+    """light: path prefix of files that are compiled with every other tool of the matrix only (dependants, quick tier)"""
+    return {"set": sset, "dir": str(ctx.scratch / "sets" / sset["id"]), "units": units, "tools": tools, "compile": compile_, "keep": keep,
+            "light": light}
 
 
 ALL_CFGS = ["c", "cpp14", "cpp17", "cpp17pmr", "cpp20", "py"]
@@ -1191,7 +1194,7 @@ def run(ctx):
             continue
         seen.add(sset["id"])
         nsets.append(sset)
-        njobs.append(mkjob(ctx, sset, [(cfg, m) for cfg in ALL_CFGS for m in omodes], tools))
+        njobs.append(mkjob(ctx, sset, [(cfg, m) for cfg in ALL_CFGS for m in omodes], tools, light="uroot/" if ctx.quick else None))
     for sset, r in zip(nsets, run_jobs(ctx, njobs)):
         camp.add(sset, r)
         if r["accepted"]:
@@ -1203,7 +1206,7 @@ def run(ctx):
         ctx.sample({"direction": "spec->code", "name_case": s["meta"], "dsdl": s["files"]})
 
     # ---- 4. code -> spec: larger random sets and the trees shipped in the repository
-    rsets = [random_set(ctx.rng, i) for i in range(ctx.pick(24, 240))]
+    rsets = [random_set(ctx.rng, i) for i in range(ctx.pick(12, 160))]
     usets = repo_sets()
     rjobs = [mkjob(ctx, s, [(cfg, m) for cfg in ALL_CFGS for m in omodes], tools) for s in rsets]
     rjobs += [mkjob(ctx, s, [(cfg, m) for cfg in (ALL_CFGS if not ctx.quick else ["c", "cpp14", "cpp17pmr", "py"]) for m in omodes], tools) for s in usets]
